@@ -242,6 +242,22 @@ def run(shard, ctx):
                           st == "exc" and isinstance(v, NoteFormatError), {"shorthand": s}, "NoteFormatError", repr(v),
                           mechanism="reject:bass")
             ctx.case(("bad", s))
+        # a known chord with a tail that string formatting, regular expressions or line handling might swallow, and such
+        # text in the place of the root
+        for hs in T.HOSTILE_STRINGS:
+            tail = hs[1:] if hs[0] in "Cc" else hs
+            if not tail or tail in ("|", "+"):       # ('+' is a shorthand character: C+, Am7+)
+                continue
+            for good in ("Am7", "C", "F#dim7", "Bb6/9", "Dm|G7"):
+                s = good + tail
+                st, v = ctx.call(chords.from_shorthand, s)
+                ctx.check("reject: an unknown shorthand raises the format error", st == "exc" and isinstance(v, (FormatError, NoteFormatError)),
+                          {"shorthand": s}, "FormatError / NoteFormatError", repr(v), mechanism="reject:hostile-tail")
+                ctx.case(("bad", s))
+            if hs[0] not in "ABCDEFG":
+                st, v = ctx.call(chords.from_shorthand, hs + "m7")
+                ctx.check("reject: a first character outside A-G raises the note-format error", st == "exc" and isinstance(v, NoteFormatError),
+                          {"shorthand": hs + "m7"}, "NoteFormatError", repr(v), mechanism="reject:hostile-root")
         # after all those refusals the ordinary chords are still built
         for text, (r_, s_) in (("Dm7", ("D", "m7")), ("F#dim7", ("F#", "dim7")), ("Bb13", ("Bb", "13"))):
             check_formula(ctx, r_, s_, text=text, clause="formula: root first, then each note on its letter at its distance",
